@@ -377,6 +377,29 @@ func runFamily(spec *Spec, f *Family, variant, bin, tier string, seed int64) *fa
 	return res
 }
 
+// skipRest reports whether the families not yet run are to be skipped: some family has reported a violation that
+// is not a listed open finding and the check has been running for more than ten minutes. On a tree on which the
+// property holds this never happens (there is no unlisted violation).
+func skipRest(spec *Spec, results []*famResult, start time.Time) bool {
+	if time.Since(start) < 10*time.Minute {
+		return false
+	}
+	open := map[string]bool{}
+	for _, f := range loadFindings() {
+		if f.Property == spec.ID && f.Status == "open" {
+			open[f.Sig] = true
+		}
+	}
+	for _, r := range results {
+		for sig := range r.viol {
+			if !open[sig] {
+				return true
+			}
+		}
+	}
+	return false
+}
+
 // maxTriage bounds the number of crashed shards examined case by case per family (see runFamily).
 const maxTriage = 6
 
@@ -697,6 +720,8 @@ func parentMain(spec *Spec, tier string, only []string) int {
 		}
 	}
 	var results []*famResult
+	checkStart := time.Now()
+	var skipped []string
 	for _, f := range spec.Families {
 		if !f.runsIn(tier) {
 			continue
@@ -716,6 +741,13 @@ func parentMain(spec *Spec, tier string, only []string) int {
 			bin, ok := bins[v]
 			if !ok {
 				panic(engineError{"no binary for variant " + v})
+			}
+			if skipRest(spec, results, checkStart) {
+				// a violation that is not a listed finding has been found and the check has been running for a
+				// long time (a change that makes executions die or hang): the remaining families are not run
+				fmt.Printf("family=%s variant=%s not run: an unlisted violation was found and the check has been running for %.0fs\n", f.Name, v, time.Since(checkStart).Seconds())
+				skipped = append(skipped, f.Name)
+				continue
 			}
 			r := runFamily(spec, f, v, bin, tier, seed)
 			fmt.Printf("family=%s variant=%s shards=%d executions=%d inner=%d outcomes=%d violations=%d exhaustive=%v wall=%.1fs\n",
@@ -757,6 +789,9 @@ func parentMain(spec *Spec, tier string, only []string) int {
 			exhaustive = false
 			caps = append(caps, r.Name+": "+r.Cap)
 		}
+		if len(skipped) > 0 {
+			exhaustive = false
+		}
 		engineErrs = append(engineErrs, r.engineErrs...)
 		for s, v := range r.viol {
 			if _, ok := viol[s]; !ok {
@@ -764,6 +799,9 @@ func parentMain(spec *Spec, tier string, only []string) int {
 			}
 			violN[s] += r.violN[s]
 		}
+	}
+	if len(skipped) > 0 {
+		caps = append(caps, "families not run after an unlisted violation had been found and ten minutes had passed: "+strings.Join(skipped, ", "))
 	}
 	if spec.Post != nil {
 		var views []FamView
